@@ -106,6 +106,23 @@ func ReadRawHeaders(dst, buf []byte) ([]byte, int, error) {
 	}
 }
 
+// HeadersComplete reports whether buf holds a whole header block, i.e. everything up to
+// and including the empty line. The header scanner edits the buffer in place (folded
+// values), so it must only run once the block is complete: a parse that is retried
+// after more bytes arrived would otherwise see its own earlier edits.
+func HeadersComplete(buf []byte) bool {
+	for {
+		n := bytes.IndexByte(buf, '\n')
+		if n < 0 {
+			return false
+		}
+		if n == 0 || (n == 1 && buf[0] == '\r') {
+			return true
+		}
+		buf = buf[n+1:]
+	}
+}
+
 func WriteBodyChunked(w network.Writer, r io.Reader) error {
 	vbuf := utils.CopyBufPool.Get()
 	buf := vbuf.([]byte)
@@ -502,6 +519,10 @@ func parseTrailer(t *protocol.Trailer, buf []byte) (int, error) {
 			return 0, io.EOF
 		}
 		buf = buf[skip:]
+	}
+
+	if !HeadersComplete(buf) {
+		return 0, errNeedMore
 	}
 
 	var s HeaderScanner
